@@ -195,7 +195,7 @@ def check(pid, tier, seed):
     ncover = len(paths)
     paths = list(paths) + [w for _, w in pathcover.random_walks(g, _random.Random("visitor-walk-%s" % seed), {"quick": 300, "thorough": 10000}[tier], 8, 30, drop=("steps",)) if w]
     for pi, path in enumerate(paths):
-        lines.append("X v%d mode=visitor dir=%s" % (pi, scratch))
+        lines.append("X v%d mode=visitor root=%d dir=%s" % (pi, 1 if pi % 4 == 1 else 0, scratch))
         lines += [vstep(ei) for ei in path]
         lines.append("E")
     res = common.run_harness(exe, "\n".join(lines) + "\n")
